@@ -12,6 +12,9 @@ ALLQ, ALLM, LOHI = 0b1111111, 0b1111, 0b0110
 H = []   # (name, tier, unwind, [body lines])
 
 
+SOLVER = {}   # harness-name prefix -> SAT back end (default: CaDiCaL)
+
+
 def add(name, tier, unwind, body):
     assert name.startswith("c12_") and all(name != h[0] for h in H), name
     H.append((name, tier, unwind, body))
@@ -95,63 +98,66 @@ def rank(ty, nl, tier, pct=None, rev=None, tag=""):
     add(f"c12_rank_{ty}{tag}_{ns(nl)}", tier, max(nl) + 4, b)
 
 
-def part(fn, ty, n, ks, tier, sort=None, rev=None, tag=""):
+def part(fn, ty, calls, tier, tag):
+    """calls: [(N, k, sort, rev)] — all concrete (see partition_case)"""
     T, small = TY[ty]
     case = {"partition": "partition_case", "argpartition": "arg_partition_case"}[fn]
-    b = [f"let keys: [Option<i32>; {n}] = sym_keys({small});", "let mut fl = PartFlags::default();",
-         f"let sort: bool = {bsym(sort, 'sort')};", f"let rev: bool = {bsym(rev, 'rev')};"]
-    for k in ks:
+    b = ["let mut fl = PartFlags::default();"]
+    for n in sorted({c[0] for c in calls}):
+        b.append(f"let keys{n}: [Option<i32>; {n}] = sym_keys({small});")
+    for n, k, sort, rev in calls:
         assert 0 <= k <= n + 1
-        b.append(f"fl.merge({case}::<{T}, {n}, {n + 3}>(&keys, {k}, sort, rev));")
-    if n >= 1:
+        b.append(f"fl.merge({case}::<{T}, {n}, {n + 3}>(&keys{n}, {k}, {str(sort).lower()}, {str(rev).lower()}));")
+    if any(n >= 1 for n, k, _, _ in calls):
         b.append('kani::cover!(fl.padded, "fewer than k+1 valid elements (pads required)");')
-    if min(ks) + 1 < n:
+    if any(k + 1 < n for n, k, _, _ in calls):
         b.append('kani::cover!(fl.selected, "more than k+1 valid elements (genuine selection)");')
-    if n >= 2 and min(ks) < n:
-        b.append('kani::cover!(fl.null_in_input && !fl.padded, "nulls in the input but enough valid elements");')
-    if sort is None:
-        b.append('kani::cover!(sort, "sorted output requested");')
-    if rev is None:
-        b.append('kani::cover!(rev, "largest elements requested");')
-    add(f"c12_{fn}_{ty}{tag}_n{n}", tier, n + 5, b)
+    if any(k + 1 < n and n >= 2 for n, k, _, _ in calls):
+        b.append('kani::cover!(fl.null_in_input && fl.selected, "nulls in the input and a genuine selection");')
+    # tight bound: library loops over the N elements (N+1 evaluations of the condition, one spare) and the
+    # k+2 reads of the harness; a generous bound is expensive here because the merged iterator states keep
+    # every inner `find` loop unrolling up to the bound
+    unwind = max(max(c[0] for c in calls) + 2, max(c[1] for c in calls) + 3)
+    add(f"c12_{fn}_{ty}_{tag}", tier, unwind, b)
 
 
 # ---------------------------------------------------------------------------------------------
 # the table
 # ---------------------------------------------------------------------------------------------
-# vquantile / vmedian. n == 1 (single) is kept apart from N >= 2 on: the pinned tree reads slot 0 there.
-for ty in ("f64", "opt"):
-    quantile(ty, [0, 1], "q", median=[0, 1])
+SOLVER.update({"c12_quantile": "minisat", "c12_median": "minisat", "c12_rank": "minisat", "c12_percentile": "minisat"})
+# vquantile / vmedian. n == 1 ("single") is kept apart for N >= 2: the pinned tree reads slot 0 there.
+quantile("f64", [0, 1], "q", median=[0])
+quantile("opt", [0, 1], "t", median=[0])
 quantile("f64", [3], "q", single=False)
-quantile("any", [3], "q", single=False, methods=LOHI, tag="_lohi")
-quantile("opt", [3], "t", single=False)
+quantile("opt", [3], "q", single=False)
+quantile("any", [2], "t", single=False, methods=LOHI, tag="_lohi")
+quantile("any", [3], "t", single=False, methods=LOHI, tag="_lohi")
+quantile("any", [4], "t", single=False, methods=LOHI, tag="_lohi")
 for ty in ("f64", "opt"):
     quantile(ty, [2], "t", single=False)
     quantile(ty, [4], "t", single=False)
-quantile("any", [2], "t", single=False, methods=LOHI, tag="_lohi")
-quantile("any", [4], "t", single=False, methods=LOHI, tag="_lohi")
-quantile("f64", [2, 3], "q", single=True, median=[2])
-quantile("any", [2, 3], "q", single=True, median=[2])
-quantile("f64", [4], "t", single=True, median=[3, 4])
-quantile("any", [4], "t", single=True, median=[3, 4])
+quantile("f64", [3], "q", single=True)
+quantile("any", [3], "t", single=True)
+for ty in ("f64", "any"):
+    quantile(ty, [2], "t", single=True, median=[2, 3])
+    quantile(ty, [4], "t", single=True, median=[4])
 median("f64", [3], "q")
-median("opt", [2], "q")
 median("opt", [3], "t")
-median("f64", [2], "t")
-median("f64", [4], "t")
-median("opt", [4], "t")
+for ty in ("f64", "opt"):
+    median(ty, [1, 2], "t")
+    median(ty, [4], "t")
 
 # vpercentile_of
 for ty in ("f64", "opt", "any"):
-    pctof(ty, [0, 1, 2], "q")
-    pctof(ty, [3], "q")
+    pctof(ty, [0, 1, 2, 3], "t" if ty == "opt" else "q")
     pctof(ty, [4], "t")
     pctof(ty, [5], "t")
 
 # vrank
-for ty in ("f64", "opt"):
-    rank(ty, [0, 1], "q")          # len == 1 shortcut: fails on "null element gets a null rank"
-    rank(ty, [2], "q")
+rank("f64", [0, 1], "q")           # len == 1 shortcut: fails on "null element gets a null rank"
+rank("opt", [0, 1], "t")
+rank("opt", [2], "q")
+rank("f64", [2], "t")
 rank("f64", [3], "q", rev=False, tag="_asc")
 rank("opt", [3], "q", rev=True, tag="_desc")
 rank("f64", [3], "t", rev=True, tag="_desc")
@@ -163,40 +169,53 @@ for ty in ("f64", "opt"):
     rank(ty, [4], "t", rev=False, tag="_asc")
     rank(ty, [4], "t", rev=True, tag="_desc")
 
-# vpartition / varg_partition. "in": k < len (k+1 entries exist), "beyond": k >= len (pads forced).
+# vpartition / varg_partition; (N, k, sort, rev) all concrete per call.
+A, D, S, U = False, True, True, False     # asc / desc, sorted / unsorted
+QUICK_TY = {"partition": "opt", "argpartition": "f64"}
 for fn in ("partition", "argpartition"):
-    for ty in ("f64", "opt"):
-        part(fn, ty, 0, [0, 1], "q", tag="_small")
-        part(fn, ty, 1, [0, 1, 2], "q", tag="_small")
-part("partition", "opt", 3, [0, 1, 2], "q", rev=False, tag="_in_asc")
-part("partition", "f64", 3, [0, 1, 2], "q", rev=True, tag="_in_desc")
-part("argpartition", "f64", 3, [0, 1, 2], "q", rev=False, tag="_in_asc")
-part("argpartition", "opt", 3, [0, 1, 2], "q", rev=True, tag="_in_desc")
-part("partition", "opt", 3, [3, 4], "q", tag="_beyond")
-part("argpartition", "f64", 3, [3, 4], "q", tag="_beyond")
-part("partition", "f64", 3, [3, 4], "t", tag="_beyond")
-part("argpartition", "opt", 3, [3, 4], "t", tag="_beyond")
-part("partition", "f64", 3, [0, 1, 2], "t", rev=False, tag="_in_asc")
-part("partition", "opt", 3, [0, 1, 2], "t", rev=True, tag="_in_desc")
-part("argpartition", "opt", 3, [0, 1, 2], "t", rev=False, tag="_in_asc")
-part("argpartition", "f64", 3, [0, 1, 2], "t", rev=True, tag="_in_desc")
-for fn in ("partition", "argpartition"):
-    for ty in ("f64", "opt"):
-        part(fn, ty, 2, [0, 1], "t", tag="_in")
-        part(fn, ty, 2, [2, 3], "t", tag="_beyond")
-        for rev, d in ((False, "asc"), (True, "desc")):
-            part(fn, ty, 4, [0, 1], "t", rev=rev, tag=f"_in01_{d}")
-            part(fn, ty, 4, [2, 3], "t", rev=rev, tag=f"_in23_{d}")
-        part(fn, ty, 4, [4, 5], "t", tag="_beyond")
-    part(fn, "any", 3, [0, 1, 2], "t", rev=False, tag="_in_asc")
-    part(fn, "any", 3, [0, 1, 2], "t", rev=True, tag="_in_desc")
+    for ty in ("f64", "opt", "any"):
+        t = "q" if ty == QUICK_TY[fn] else "t"
+        if ty == "any":
+            # unconstrained keys: the two selection families only
+            part(fn, ty, [(3, 1, S, A), (3, 0, S, D)], "t", "in_sorted_n3")
+            part(fn, ty, [(3, 0, U, A), (3, 1, U, D)], "t", "in_unsorted_n3")
+            continue
+        # k < len: every code path (n == k+1 filter path, n < k+1 pad path, sorted fast path, selection)
+        part(fn, ty, [(3, 1, S, A), (3, 0, S, D)], t, "in_sorted_n3")
+        part(fn, ty, [(3, 0, U, A), (3, 1, U, D)], t, "in_unsorted_n3")
+        # k+1 == len (sorted) and k+1 > len without the sorted flag (pads forced)
+        part(fn, ty, [(3, 2, S, A), (3, 3, U, D)], "t", "pad_n3")       # quick has the same paths at N = 1 (small_n0n1)
+        part(fn, ty, [(0, 0, U, A), (1, 0, S, A), (1, 1, U, D)], t, "small_n0n1")
+        # k+1 > len with the sorted flag: the pinned vpartition returns len entries here
+        part(fn, ty, [(0, 0, S, A), (1, 1, S, D), (2, 2, S, A), (2, 3, S, D)], t if fn == "partition" else "t", "sorted_beyond_n0n1n2")
+        part(fn, ty, [(3, 3, S, A), (3, 4, S, D)], "t", "sorted_beyond_n3")
+        # the mirrored flags and the remaining k at N <= 3, and N = 4: thorough
+        part(fn, ty, [(0, 1, U, D), (1, 0, S, D), (1, 0, U, A), (1, 0, U, D), (1, 1, U, A), (1, 2, U, A), (1, 2, U, D)], "t", "small_rest_n0n1")
+        part(fn, ty, [(3, 1, S, D), (3, 0, S, A)], "t", "in_sorted_mirror_n3")
+        part(fn, ty, [(3, 0, U, D), (3, 1, U, A)], "t", "in_unsorted_mirror_n3")
+        part(fn, ty, [(3, 2, S, D), (3, 2, U, A), (3, 2, U, D)], "t", "pad_k2_n3")
+        part(fn, ty, [(3, 3, U, A), (3, 4, U, A), (3, 4, U, D)], "t", "pad_beyond_n3")
+        part(fn, ty, [(2, 0, S, A), (2, 0, S, D), (2, 0, U, A), (2, 0, U, D)], "t", "in_n2")
+        part(fn, ty, [(2, 1, S, A), (2, 1, S, D), (2, 1, U, A), (2, 1, U, D)], "t", "pad_k1_n2")
+        part(fn, ty, [(2, 2, U, A), (2, 2, U, D), (2, 3, U, A), (2, 3, U, D)], "t", "pad_beyond_n2")
+        if True:
+            for k in (0, 1, 2):
+                part(fn, ty, [(4, k, S, A), (4, k, U, D)], "t", f"in_k{k}_n4")
+                part(fn, ty, [(4, k, S, D), (4, k, U, A)], "t", f"in_k{k}_mirror_n4")
+            part(fn, ty, [(4, 3, S, A), (4, 3, U, D)], "t", "pad_k3_n4")
+            part(fn, ty, [(4, 4, U, A), (4, 5, U, D)], "t", "pad_beyond_n4")
+            part(fn, ty, [(4, 4, S, A), (4, 5, S, D)], "t", "sorted_beyond_n4")
 
 out = ["// @generated by /verif/tools/gen_c12.py — do not edit by hand", ""]
 for name, tier, unwind, body in H:
     if tier == "t":
         out.append('#[cfg(feature = "thorough")]')
-    out += ["#[kani::proof]", "#[kani::stub(std::fmt::format, crate::util::fmt_stub)]", f"#[kani::unwind({unwind})]",
-            f"pub fn {name}() {{"]
+    out += ["#[kani::proof]", "#[kani::stub(std::fmt::format, crate::util::fmt_stub)]", f"#[kani::unwind({unwind})]"]
+    for pre, sol in SOLVER.items():
+        if name.startswith(pre):
+            out.append(f"#[kani::solver({sol})]")
+            break
+    out.append(f"pub fn {name}() {{")
     out += ["    " + l for l in body]
     out += ["}", ""]
 open(OUT, "w").write("\n".join(out))
